@@ -302,6 +302,22 @@ class CopyOverlay(CopySuite):
             if rng.random() < 0.08:
                 ops.append(self.mk(*collide_family(rng)))
                 continue
+            sdirs = [bytes.fromhex(e["p"]) for e in tree if e["t"] == "dir"]
+            ddirs = [bytes.fromhex(e["p"]) for e in dst if e["t"] == "dir"]
+            if sdirs and ddirs and rng.random() < 0.15:
+                # where the source has a directory the destination has a SYMLINK to an existing directory (inside the destination):
+                # a directory meets a non-directory - an error that leaves the link in place, nothing is merged through it
+                pdir = rng.choice(sdirs)
+                cands = [q for q in ddirs if q != pdir and not q.startswith(pdir + b"/") and not pdir.startswith(q + b"/")]
+                if cands:
+                    q = rng.choice(cands)
+                    hp = hx(pdir)
+                    dst = [e for e in dst if e["p"] != hp and not e["p"].startswith(hp + "2f")]
+                    par = pdir.rsplit(b"/", 1)[0] if b"/" in pdir else b""
+                    have = {e["p"] for e in dst}
+                    if par == b"" or hx(par) in have:
+                        dst.append({"p": hp, "t": "symlink", "ln": hx(b"../" * pdir.count(b"/") + q), "uid": 0, "gid": 0, "mt": gen.MTIMES[0], "mode": 0o777})
+                        dst.sort(key=lambda e: gen.pathkey(bytes.fromhex(e["p"])))
             if rng.random() < 0.3:
                 # a destination file that differs from the source file of the same name in its BYTES only (same size, same times)
                 sf = {e["p"]: e for e in tree if e["t"] == "file" and 0 < e.get("size", 0) <= 4096}
@@ -405,6 +421,31 @@ class CopyFilter(CopySuite):
             if hl and rng.random() < 0.5:
                 # the filter rejects the first name of a hard-link group and selects a later one
                 a["exclude"] = [rng.choice(hl)["ln"]]
+                dst = [] if rng.random() < 0.7 else [e for e in gen.mutate_disk_tree(rng, tree, 2) if e["t"] != "hardlink"]
+                ops.append(self.mk(tree, dst, a))
+                continue
+            if rng.random() < 0.05:
+                # wildcard-free include patterns that have to ESCAPE a metacharacter in a directory name in the middle of the path
+                dn = rng.choice([b"r[1]", b"x*", b"q?", b"2024[final]", b"a\\b"])
+                extra = [{"p": hx(dn), "t": "dir", "uid": 0, "gid": 0, "mt": gen.MTIMES[0], "mode": 0o755},
+                         {"p": hx(dn + b"/s.txt"), "t": "file", "size": 3, "uid": 0, "gid": 0, "mt": gen.MTIMES[1], "mode": 0o644},
+                         {"p": hx(dn + b"/t"), "t": "dir", "uid": 0, "gid": 0, "mt": gen.MTIMES[0], "mode": 0o755},
+                         {"p": hx(dn + b"/t/u"), "t": "file", "size": 3, "uid": 0, "gid": 0, "mt": gen.MTIMES[1], "mode": 0o644}]
+                hdn = hx(dn)
+                tree2 = [e for e in tree if e["p"] != hdn and not e["p"].startswith(hdn + "2f") and e.get("ln", "") != hdn and not e.get("ln", "").startswith(hdn + "2f")] + extra
+                tree2.sort(key=lambda e: gen.pathkey(bytes.fromhex(e["p"])))
+                esc = lambda c: b"".join(b"\\" + bytes([x]) if x in b"*?[]\\" else bytes([x]) for x in c)
+                a["include"] = [hx(esc(dn) + rng.choice([b"/s.txt", b"/t/u", b"/t"]))]
+                if rng.random() < 0.4:
+                    a["include"].append(hx(esc(dn) + b"/t/u"))
+                dst = [] if rng.random() < 0.7 else [e for e in gen.mutate_disk_tree(rng, tree2, 2) if e["t"] != "hardlink"]
+                ops.append(self.mk(tree2, dst, a))
+                continue
+            if rng.random() < 0.04:
+                # an include list whose entries are all blank: it is a filter (it selects nothing), not "no filter"
+                a["include"] = [hx(x) for x in rng.choice([[b""], [b" ", b"\t"], [b"", b" "]])]
+                if rng.random() < 0.3:
+                    a["exclude"] = [hx(b"")]
                 dst = [] if rng.random() < 0.7 else [e for e in gen.mutate_disk_tree(rng, tree, 2) if e["t"] != "hardlink"]
                 ops.append(self.mk(tree, dst, a))
                 continue
